@@ -803,6 +803,10 @@ impl<'a> Interp<'a> {
                     vals.push(self.eval(a, env)?);
                 }
                 self.trace.calls += 1;
+                if func == "tick" && vals.is_empty() {
+                    // harness-provided probe function (C11): returns 0
+                    return Ok(CVal::Int(0));
+                }
                 if !stdlib::FUNCTIONS.contains(&func.as_str()) {
                     return self.err(ErrKind::UndefinedFunction, format!("undefined function {}", func), env);
                 }
